@@ -112,8 +112,8 @@ class Feed:
         add('a1_pos1', {'kind': 'pos', 'icao': a1, 'lat': 35.2, 'lon': -80.0, 'alt': 10000, 'odd': 1})
         add('a1_vel', {'kind': 'vel', 'icao': a1, 'east': 100, 'north': -200, 'vrate': -640})
         # a second fix 3 km further north (pairs with the first), and a report 1100 km away (clears the record)
-        add('a1_pos2_0', {'kind': 'pos', 'icao': a1, 'lat': 35.23, 'lon': -80.0, 'alt': 10100, 'odd': 0})
-        add('a1_pos2_1', {'kind': 'pos', 'icao': a1, 'lat': 35.23, 'lon': -80.0, 'alt': 10100, 'odd': 1})
+        add('a1_pos2_0', {'kind': 'pos', 'icao': a1, 'lat': 35.21, 'lon': -80.0, 'alt': 10100, 'odd': 0})
+        add('a1_pos2_1', {'kind': 'pos', 'icao': a1, 'lat': 35.21, 'lon': -80.0, 'alt': 10100, 'odd': 1})
         add('a1_far_1', {'kind': 'pos', 'icao': a1, 'lat': 45.0, 'lon': -80.0, 'alt': 30000, 'odd': 1})
         add('a2_ident', {'kind': 'ident', 'icao': a2, 'callsign': 'TWO'})
         add('a3_pos0', {'kind': 'pos', 'icao': a3, 'lat': 34.7, 'lon': -80.4, 'alt': 32000, 'odd': 0})
@@ -492,8 +492,25 @@ ASSUMPTIONS = [
 ]
 
 
+def selfcheck_letters(feed):
+    """the traffic letters must do what the scripts rely on (checked through the real tracker library): Pos2 pairs with Pos
+    and moves the fix, Far clears the record, a following Pos fixes again - otherwise the position histories are vacuous"""
+    L = feed.l
+    pos, pos2, far = ['a1_pos0', 'a1_pos1'], ['a1_pos2_0', 'a1_pos2_1'], ['a1_far_1']
+
+    def lat_of(names):
+        t = e4lib.feed2table(b''.join(L[n] for n in names), e4lib.RX_LAT, e4lib.RX_LON)
+        return [r['lat'] for r in t['rows']]
+    want = [(pos, ['35.200']), (pos + pos2, ['35.210']), (pos + pos2 + far, ['']), (pos + pos2 + far + pos, ['35.200'])]
+    for names, w in want:
+        got = lat_of(names)
+        if got != w:
+            raise e4lib.Machinery('traffic letters do not behave as the scripts assume: %s -> %s, want %s' % (names, got, w))
+
+
 def run(tier):
     feed = Feed()
+    selfcheck_letters(feed)
     scripts, bound = enumerate_scripts(tier, feed)
     ex = e4lib.Explorer('C17', tier)
     try:
